@@ -18,7 +18,8 @@ structure Ctx where
   appendText : ∀ {k n b} (s : Segment) (so ha ra : Bool), LK k n b → LK (k ++ [.text s so ha ra]) n b
   swapText : ∀ {k n b} (s t : Segment) (so ha ra : Bool), LK (k ++ [.text s so ha ra]) n b → LK (k ++ [.text t so ha ra]) n b
   appendPlain : ∀ {k n b} (nd : Node), LK k n b → wf false nd = true → LK (k ++ [nd]) n b
-  appendDelim : ∀ {k n b} (d : Delim), LK k n b → 1 ≤ d.length → LK (k ++ [.delim n d]) (n + 1) b
+  appendDelim : ∀ {k n b} (d : Delim), LK k n b → 1 ≤ d.length → d.seg.stop = d.seg.start + d.length →
+    LK (k ++ [.delim n d]) (n + 1) b
   bumpId : ∀ {k n b}, LK k n b → LK k (n + 1) b
 
 /-- the trivial context invariant -/
@@ -27,7 +28,7 @@ def Ctx.trivial : Ctx where
   appendText := fun _ _ _ _ _ => True.intro
   swapText := fun _ _ _ _ _ _ => True.intro
   appendPlain := fun _ _ _ => True.intro
-  appendDelim := fun _ _ _ => True.intro
+  appendDelim := fun _ _ _ _ => True.intro
   bumpId := fun _ => True.intro
 
 theorem Ctx.merge (X : Ctx) {k : List Node} {n : Nat} {b : List Bottom} (s : Segment) (h : X.LK k n b) :
@@ -117,7 +118,7 @@ theorem emphasis_contract (X : Ctx) (W : WFSegs src segs) (Z : ∀ s ∈ segs, s
   | some nd =>
     obtain ⟨g1, g2, g3⟩ := e5 nd rfl
     obtain ⟨d, rfl⟩ := parseEmphasis_delim e1
-    refine ⟨g1, ?_, X.appendDelim d hI.lk g3⟩
+    refine ⟨g1, ?_, X.appendDelim d hI.lk g3.1 g3.2⟩
     rw [segsOfL_append]
     exact chain_append hI.ch (by simpa [segsOfL] using g2)
 
@@ -594,7 +595,7 @@ def Ctx.pos : Ctx where
   appendText := fun s so ha ra h => posL_append.mpr ⟨h, posL_text s so ha ra⟩
   swapText := fun s t so ha ra h => posL_append.mpr ⟨(posL_append.mp h).1, posL_text t so ha ra⟩
   appendPlain := fun nd h hw => posL_append.mpr ⟨h, posL_nondelim (by cases nd <;> simp_all [wf, Node.isDelim])⟩
-  appendDelim := fun d h hd => posL_append.mpr ⟨h, posL_delim.mpr hd⟩
+  appendDelim := fun d h hd _ => posL_append.mpr ⟨h, posL_delim.mpr hd⟩
   bumpId := fun h => h
 
 theorem sub_mem {src : Bytes} {a b : Nat} {x : UInt8} (h : x ∈ sub src a b) : x ∈ src := by
